@@ -421,6 +421,24 @@ def _run(chk):
             if out in ('skip', 'oversize') or out is None or any(o is None for o in out):
                 continue
             dterms.append(c02.case_term(c, out)); dmetas.append((k, name, c, out))
+    # ---- hub movies: ONE source with 11-13 destinations in range (the cap of 10 neighbours is per destination, so a source
+    # may have more candidates than that); the optimum links the hub to its farthest candidate.  New strategies, table entry
+    # point and the legacy linker must all find it (subnet of 11-13 sources: limit raised for these movies only)
+    for hk in range(3 if chk.tier == 'quick' else 40):
+        c = c02.gen_hub(rng)
+        frames, sr, mem = c['frames'], c['sr'], c['memory']
+        with linkgen.size_limit(c['max_size']):
+            hruns = {'link_iter/recursive': linkgen.run_link_iter(frames, sr, memory=mem, link_strategy='recursive', max_size=c['max_size']),
+                     'link_iter/nonrecursive': linkgen.run_link_iter(frames, sr, memory=mem, link_strategy='nonrecursive', max_size=c['max_size']),
+                     'link/recursive': run_table(frames, sr, mem, 'recursive', 'link'),
+                     'legacy/KDTree/recursive': run_legacy(frames, sr, mem, 'KDTree', 'recursive')}
+        chk.count(('hub movie', c02.jsonable(c, None)), True)
+        chk.tally('hub movie (one source with > 10 destinations in range)')
+        for name, out in hruns.items():
+            if out in ('skip', 'oversize') or out is None or any(o is None for o in out):
+                chk.tally('hub movie: oversize'); continue
+            terms.append(c02.case_term(c, out)); metas.append((1000000 + hk, name, c, out))
+            chk.tally('run ' + name.split('/')[0])
     # ---- the same matrix WITH adaptive search (strategies and entry points must agree there too): dense clusters,
     # lowered adaptive limit, memory >= 1; every labelling is judged by C12's monitor (Model/Adaptive.acheck_run)
     from props import c12
@@ -550,7 +568,14 @@ def _replay(chk, path):
     frames = [np.array(f, dtype=float).reshape(len(f), -1) for f in cj['frames']]
     ndim = max([f.shape[1] for f in frames if f.size] or [2])
     frames = [f.reshape(len(f), ndim) for f in frames]
-    c = dict(frames=frames, sr=sr, memory=cj['memory'], max_size=linkgen.LIMIT, strategy='recursive', ndim=ndim)
+    c = dict(frames=frames, sr=sr, memory=cj['memory'], max_size=int(cj.get('max_size') or linkgen.LIMIT), strategy='recursive', ndim=ndim)
+    if c['max_size'] != linkgen.LIMIT:          # hub movies: limit raised for that movie
+        with linkgen.size_limit(c['max_size']):
+            return _replay_matrix(chk, r, cj, c, frames, sr)
+    return _replay_matrix(chk, r, cj, c, frames, sr)
+
+
+def _replay_matrix(chk, r, cj, c, frames, sr):
     linkgen.SPELL = cj.get('search_range_spelling')
     c['sr_spell'] = linkgen.SPELL
     name = r.get('run', 'link_iter/recursive')
@@ -560,7 +585,7 @@ def _replay(chk, path):
     elif parts[0] == 'link_iter(another job alive)':
         out = linkgen.run_link_iter(frames, sr, memory=c['memory'], link_strategy=parts[1], bystander=True)
     elif parts[0] == 'link_iter':
-        out = linkgen.run_link_iter(frames, sr, memory=c['memory'], link_strategy=parts[1])
+        out = linkgen.run_link_iter(frames, sr, memory=c['memory'], link_strategy=parts[1], max_size=c['max_size'] if c['max_size'] != linkgen.LIMIT else None)
     else:
         out = run_table(frames, sr, c['memory'], parts[-1], 'link_df_iter' if parts[0] == 'link_df_iter' else 'link')
     drop = parts[-1] == 'drop'
